@@ -1,12 +1,16 @@
 import LopdfModel.Model.Outlines
 import LopdfModel.Thm.C12
+import LopdfModel.Model.ExtractText
+import LopdfModel.Thm.C04
+import LopdfModel.Lemmas.C09Ops
+import LopdfModel.Thm.C16
 import LopdfModel.Gen.Tables
 /-
   C13 — read-only queries are total on arbitrary object graphs: property theorems
   (code with all C13 repairs, incl. the seen sets of <COMMIT-b2> and <COMMIT-d4>).
 
   For EVERY document every read-only query returns a value or an error:
-  * no panic: `getObjectMut_total`, `getPageContent_ok`, `getPageResources_total`,
+  * no panic: `getObjectMut_total`, `getPageContent_filters_ok`, `extractText_no_panic`, `getPageResources_total`,
     `getPageFonts_total`, `getPageAnnotations_total`, `getFontEncoding_total`, `getPageImages_total`,
     `buildOutlineResult_total`, `getOutline_total`, `namedDests_total`, `getOutlines_total`,
     `getPages_total` / `getPages_eq_pageIter`, `getObjectPage_total`, `getToc_total`
@@ -107,10 +111,6 @@ theorem getObjectMut_total (os : Objects) (id : ObjId) (s : String) : getObjectM
   rw [getObjectMut_eq_getObject]; cases getObject os id <;> simp [Outcome.ofOpt]
 
 /-! ## page content, resources, fonts, annotations, font encoding: total on every document -/
-
-/-- `get_page_content` always returns `Ok`, for every document and every behaviour of the filters -/
-theorem getPageContent_ok (decomp : Dict → Bytes → Option Bytes) (os : Objects) (pid : ObjId) :
-    ∃ b, getPageContent decomp os pid = .ok b := ⟨_, rfl⟩
 
 /-- `get_page_resources` is total: the `Parent` walk is guarded by `already_seen`
 (its termination is `collectResources`' own fuel-free definition) and nothing in it can panic -/
@@ -672,5 +672,149 @@ theorem getToc_total (memMax : Nat) (trailer : Dict) (os : Objects)
     · simp at h
     · rw [getPages_eq_pageIter memMax trailer os hmem hM] at h
       simp at h
+
+/-! ## get_page_content / extract_text on top of the filter, content and text models -/
+
+theorem frameLoop_no_panic (bpp rowLen : Nat) (content prev : Bytes) (s : String) :
+    frameLoop bpp rowLen content prev ≠ .panic s := by
+  fun_induction frameLoop bpp rowLen content prev
+  · simp
+  · simp
+  · simp
+  · rename_i ih
+    cases h : frameLoop bpp rowLen _ _ <;> simp_all [Outcome.map]
+
+theorem decompressPredictor_no_panic (data : Bytes) (params : Option Dict) (s : String) :
+    decompressPredictor data params ≠ .panic s := by
+  unfold decompressPredictor
+  split
+  · simp
+  · simp only []
+    split
+    · split
+      · simp
+      · unfold decodeFrame
+        split
+        · simp
+        · split
+          · simp
+          · exact frameLoop_no_panic _ _ _ _ _
+    · simp
+
+theorem applyFilter_no_panic (ext : Ext) (params : Option Dict) (name input : Bytes) (s : String) :
+    applyFilter ext params name input ≠ .panic s := by
+  unfold applyFilter
+  split
+  · exact decompressPredictor_no_panic _ _ _
+  · split
+    · exact decompressPredictor_no_panic _ _ _
+    · split
+      · exact a85_no_panic' _ _
+      · simp
+
+theorem filterLoop_no_panic (ext : Ext) (params : Option Dict) : ∀ (fs : List Bytes) (input : Bytes) (s : String),
+    filterLoop ext params fs input ≠ .panic s := by
+  intro fs
+  induction fs with
+  | nil => intro input s; simp [filterLoop]
+  | cons f fs ih =>
+    intro input s
+    unfold filterLoop
+    cases h : applyFilter ext params f input with
+    | ok v => simp [Outcome.bind]; exact ih v s
+    | err e => simp [Outcome.bind]
+    | panic s' => exact absurd h (applyFilter_no_panic _ _ _ _ _)
+
+/-- **`Stream::decompressed_content` never panics**, for every stream dictionary, content and every
+behaviour of flate2 / weezl -/
+theorem decompressedContent_no_panic (ext : Ext) (st : Strm) (s : String) : decompressedContent ext st ≠ .panic s := by
+  unfold decompressedContent
+  split
+  · simp
+  · simp
+  · exact filterLoop_no_panic _ _ _ _ _
+
+/-- `get_page_content` returns `Ok` whenever the filters do not panic -/
+theorem getPageContent_ok (decomp : Dict → Bytes → Outcome Bytes) (hd : ∀ d c s, decomp d c ≠ .panic s)
+    (os : Objects) (pid : ObjId) : ∃ b, getPageContent decomp os pid = .ok b := by
+  unfold getPageContent
+  generalize getPageContents os pid = ids
+  suffices h : ∀ (ids : List ObjId) (b0 : Bytes), ∃ b, ids.foldl (fun (acc : Outcome Bytes) id =>
+      match acc with
+      | .ok sofar =>
+        match (getObject os id).bind Obj.asStream with
+        | none => .ok sofar
+        | some (d, c) =>
+          match decomp d c with
+          | .ok data => .ok (sofar ++ data)
+          | .err _ => .ok (sofar ++ c)
+          | .panic s => .panic s
+      | other => other) (.ok b0) = .ok b from h ids []
+  intro ids
+  induction ids with
+  | nil => intro b0; exact ⟨b0, rfl⟩
+  | cons id rest ih =>
+    intro b0
+    simp only [List.foldl_cons]
+    split
+    · exact ih b0
+    · rename_i d c _
+      cases hdc : decomp d c with
+      | ok data => exact ih _
+      | err e => exact ih _
+      | panic s => exact absurd hdc (hd d c s)
+
+/-- **`get_page_content` with the real filter chain (C09's model) always returns `Ok`** -/
+theorem getPageContent_filters_ok (ext : Ext) (os : Objects) (pid : ObjId) :
+    ∃ b, getPageContent (decompOf ext) os pid = .ok b :=
+  getPageContent_ok _ (fun _ _ _ => decompressedContent_no_panic _ _ _) os pid
+
+theorem extractPage_no_panic (ext : Ext) (os : Objects) (pid : ObjId) (s : String) : extractPage ext os pid ≠ .panic s := by
+  unfold extractPage
+  split
+  · simp
+  · rename_i s' h; exact absurd h (getPageFonts_total _ _ _)
+  · obtain ⟨b, hb⟩ := getPageContent_filters_ok ext os pid
+    rw [hb]
+    simp only []
+    split
+    · simp
+    · rename_i s' h
+      exact absurd h ((noPanic_iff _).mp (decodeContent_never_panics b) s')
+    · exact extract_never_panics _ _ _
+
+theorem joinPages_no_panic : ∀ (rs : List (Outcome UStr)), (∀ r ∈ rs, ∀ s, r ≠ .panic s) → ∀ s, joinPages rs ≠ .panic s := by
+  intro rs
+  induction rs with
+  | nil => intro _ s; simp [joinPages]
+  | cons r rest ih =>
+    intro h s
+    have hr := h r List.mem_cons_self
+    have hrest := ih (fun r' hr' => h r' (List.mem_cons_of_mem _ hr'))
+    unfold joinPages
+    split
+    · exact hr s
+    · rename_i s' _ hj; exact absurd hj (hrest s')
+    · simp
+    · simp
+    · simp
+
+/-- **`extract_text` never panics** (ToUnicode CMaps excluded — C15): for every document, every list
+of page numbers and every behaviour of flate2 / weezl, composing page lookup (C12/C13), fonts (C13),
+the filter chain (C09), the content parser (C04/C14) and the text loop with the one-byte tables
+(C16). Memory bound as for `get_pages`. -/
+theorem extractText_no_panic (memMax : Nat) (ext : Ext) (trailer : Dict) (os : Objects) (nums : List Nat)
+    (hmem : (2 * os.length + 4) * 12 ≤ memMax) (hM : memMax ≤ ISIZE_MAX) (s : String) :
+    extractTextDoc memMax ext trailer os nums ≠ .panic s := by
+  unfold extractTextDoc
+  rw [getPages_eq_pageIter memMax trailer os hmem hM]
+  simp only []
+  apply joinPages_no_panic
+  intro r hr s'
+  simp only [List.mem_map] at hr
+  obtain ⟨n, _, rfl⟩ := hr
+  split
+  · simp
+  · exact extractPage_no_panic _ _ _ _
 
 end Lopdf.Q13
